@@ -14,6 +14,10 @@ expression is evaluated; early-evaluated constructor calls are followed to the d
 * `sites_use_os_entropy`, `rng_wrappers_fresh`   the draws come from OS entropy through pass-through
                          wrappers (restart clause: nothing seedable / cached inside rng.py).
 * `current_tree_fresh`   the two combined: no history over the current site table shares a value.
+* `reuse_fresh_iff`      (phase 2) histories with object identity (`new`/`respec`/`emit`): no left-over user value and no
+                         self-chosen value shared by two different builds ⇔ every re-specification path resets;
+  `respec_paths_reset`   (`decide`) the obligation over Generated/SecretState.lean (setters, load_from_config, parse paths
+                         of every class that stores a self-chosen secret); `current_tree_reuse_safe` combines them.
 * `kept_value_shares`    the boundary of the model: a value kept from another artifact (re-used builder object, cache)
                          always violates the property; detected at run time (trace flag), not by the site table.
 * `ctr_pair_unique`      corollary: no two artifacts of any history feed the same (key, nonce) to AES-CTR
@@ -23,6 +27,8 @@ expression is evaluated; early-evaluated constructor calls are followed to the d
 import SpsdkVerif.Model.Fresh
 import SpsdkVerif.Proofs.Fresh
 import SpsdkVerif.Generated.SecretSites
+import SpsdkVerif.Proofs.FreshObj
+import SpsdkVerif.Generated.SecretState
 
 namespace SpsdkVerif.C17
 open SpsdkVerif.Fresh
@@ -102,7 +108,74 @@ theorem kept_value_shares (o : List Obs) (x : Obs) (hx : x ∈ o) (b : Nat) (hb 
   intro h
   exact h x (by simp [hx]) ⟨b, x.site, x.tok⟩ (by simp) (fun e => hb e.symm) rfl
 
+/-! ### Re-used builder objects (phase 2): Model/FreshObj.lean, Generated/SecretState.lean -/
+
+/-- a path that keeps the old value leaks a value the user supplied for an earlier build into a build that supplied nothing -/
+theorem keep_path_leaks_user_value (T : List Bool) (p : Nat) (hp : T[p]? = some false) :
+    runObj T [.new 0, .respec 0 p (some 7), .emit 0, .respec 0 p none, .emit 0] =
+      [⟨0, 3, false, .user 7⟩, ⟨0, 2, true, .user 7⟩] := by
+  have h : T[p]? = [false][0]? := by simpa using hp
+  have e : runObj T [.new 0, .respec 0 p (some 7), .emit 0, .respec 0 p none, .emit 0] =
+      runObj [false] [.new 0, .respec 0 0 (some 7), .emit 0, .respec 0 0 none, .emit 0] := by
+    simp only [runObj, orun, List.foldl, ostep_respec_congr T [false] p 0 h, ostep_new_congr T [false], ostep_emit_congr T [false]]
+  rw [e]; decide
+
+/-- … and makes two different builds share a self-chosen value (the seeded change C17a: artifact B encrypted with A's IV) -/
+theorem keep_path_shares_chosen_value (T : List Bool) (p : Nat) (hp : T[p]? = some false) :
+    runObj T [.new 0, .emit 0, .respec 0 p none, .emit 0] = [⟨0, 2, false, .chosen 0⟩, ⟨0, 1, false, .chosen 0⟩] := by
+  have h : T[p]? = [false][0]? := by simpa using hp
+  have e : runObj T [.new 0, .emit 0, .respec 0 p none, .emit 0] = runObj [false] [.new 0, .emit 0, .respec 0 0 none, .emit 0] := by
+    simp only [runObj, orun, List.foldl, ostep_respec_congr T [false] p 0 h, ostep_new_congr T [false], ostep_emit_congr T [false]]
+  rw [e]; decide
+
+/-- **Freshness across re-use histories ⇔ every re-specification path resets.**  For all histories of `new` / `respec` /
+    `emit` steps over any number of objects: (1) a build for which nothing was supplied never carries a left-over user
+    value and (2) a self-chosen value is shared only by artifacts of the same build of the same object — if and only if
+    every path of the table (re)sets the secret on every path.  Generalises `kept_value_shares`. -/
+theorem reuse_fresh_iff (T : List Bool) : (∀ h : List Step, Safe (runObj T h)) ↔ ∀ r ∈ T, r = true := by
+  constructor
+  · intro hall r hr
+    cases r with
+    | true => rfl
+    | false =>
+      exfalso
+      obtain ⟨p, hp⟩ := List.getElem?_of_mem hr
+      have h1 := (hall [.new 0, .respec 0 p (some 7), .emit 0, .respec 0 p none, .emit 0]).1
+      rw [keep_path_leaks_user_value T p hp] at h1
+      obtain ⟨t, ht⟩ := h1 ⟨0, 3, false, .user 7⟩ (by simp) rfl
+      cases ht
+  · intro hT h
+    exact (oinv_foldl T (fun p r hp => hT r (List.mem_of_getElem? hp)) h {} oinv_init).safe
+
+/-- the re-specification paths of the current tree that the obligation is about: public entry points (setters,
+    `*load*config*`, `*parse*`) writing an attribute that receives a draw made in the class itself -/
+def respecPaths : List SlotPath := Generated.secretSlots.filter (fun r => r.role = .respec && r.direct)
+
+/-- **The obligation on the current tree**: every such path (re)sets the secret on every normal path — also when the user
+    supplied nothing (fails for `if cfg_value: self.x = …` without an else, the seeded change C17a). -/
+theorem respec_paths_reset : ∀ r ∈ Generated.secretSlots, r.role = .respec → r.direct = true → r.resets = true := by decide
+
+/-- On the current tree no history that re-uses builder objects through these paths leaks or shares a secret. -/
+theorem current_tree_reuse_safe (h : List Step) : Safe (runObj (respecPaths.map (·.resets)) h) := by
+  refine (reuse_fresh_iff _).mpr ?_ h
+  intro r hr
+  obtain ⟨x, hx, rfl⟩ := List.mem_map.mp hr
+  have hx' := List.mem_filter.mp hx
+  have h2 : x.role = .respec ∧ x.direct = true := by simpa using hx'.2
+  exact respec_paths_reset x hx'.1 h2.1 h2.2
+
 /-! ### Sanity checks / non-vacuity -/
+
+-- the object-state table covers the MBI counter IV (getter + at least three public re-specification paths) …
+example : 3 ≤ (respecPaths.filter (fun r => r.kind = .mbi)).length := by decide
+example : ∃ r ∈ Generated.secretSlots, r.kind = .mbi ∧ r.role = .getter := by decide
+-- … an object exported twice in one build shares its value by design (`BootImageV2x` re-export, same epoch = same build)
+example : runObj [] [.new 0, .emit 0, .emit 0] = [⟨0, 1, false, .chosen 0⟩, ⟨0, 1, false, .chosen 0⟩] := by decide
+example : Safe (runObj [] [.new 0, .emit 0, .emit 0]) := (reuse_fresh_iff []).mpr (by simp) _
+-- … two objects, a reload with a resetting path: three different values
+example : runObj [true] [.new 0, .emit 0, .new 1, .emit 1, .respec 0 0 none, .emit 0] =
+    [⟨0, 2, false, .chosen 2⟩, ⟨1, 1, false, .chosen 1⟩, ⟨0, 1, false, .chosen 0⟩] := by decide
+
 
 -- the table is not empty and covers the artifact families of the property
 example : 20 ≤ Generated.secretSites.length := by decide
